@@ -1,5 +1,6 @@
 import AtreeProofs.Codec.NoPanic
 import AtreeProofs.Codec.NoPanicG
+import AtreeProofs.Codec.BudgetSlab
 /-
   C19 — Decoding untrusted bytes never panics or hangs.
   PROPERTY THEOREMS about the byte-level decoder model (`AtreeModel/Codec/Decode.lean`), in which
@@ -11,10 +12,13 @@ import AtreeProofs.Codec.NoPanicG
   extra-data sections, the shared inlined-extra-data section (type-info references included),
   inlined arrays / maps / compact maps (`DecodeInlined*Storable`), collision groups, the harness's
   element / type-info callbacks with their recursion — for ALL byte strings.
+  Scope of `alloc_linear`: the same full `DecodeSlab`, all kinds, all byte strings, success or
+  failure: at most TWO slice elements per input byte (an inlined compact map allocates two slices of
+  its element count; every other `make` is paid once by the items an array head announces or by the
+  bytes of a byte string just read).
   Scope of `alloc_linear_flat`: the first part of the decoder (`decodeSlabFlat`: array data / index
-  slabs and large-value slabs without wrappers or inlined children); the bound `allocs ≤ length`
-  does NOT hold for the full decoder (an inlined compact map allocates two slices of its element
-  count), see INTEGRATION-codec2.md.
+  slabs and large-value slabs without wrappers or inlined children), where the constant is 1; the
+  bound `allocs ≤ length` does NOT hold for the full decoder, see INTEGRATION-codec2.md.
   Panics inside the CBOR library or the Go runtime are not modelled (DESIGN.md §7, C19 "Partial").
 
   Termination: every function of the model is accepted by Lean as structurally recursive — the
@@ -70,6 +74,29 @@ theorem header_queries_ok_iff (bytes : Bytes) (n : Nat) :
     slabs; for the full decoder the constant is 2, not 1.) -/
 theorem alloc_linear_flat (bytes : Bytes) (id : SlabID) : (decodeSlabFlat id bytes).run.allocs ≤ bytes.length + 0 :=
   (safe_decodeSlabFlat id bytes).run_allocs_le
+
+/-- Memory, the full decoder (every slab kind, both versions, inlined children, compact maps,
+    collision groups, the inlined-extra-data section): the number of slice elements `DecodeSlab`
+    allocates with `make` is at most twice the length of the input, whether decoding succeeds or
+    fails.  The constant 2 is needed: `DecodeInlinedCompactMapStorable` allocates a digest slice and
+    an element slice of the size of the (validated) value array.  Proof: `Codec/Budget*.lean` — the
+    CBOR validator has already accepted every item the stream decoder is inside, so an array head
+    that announces `k` items is followed by at least `k` bytes. -/
+theorem alloc_linear (bytes : Bytes) (id : SlabID) : (decodeSlab id bytes).run.allocs ≤ 2 * bytes.length := by
+  have h := decodeSlab_alloc_le id bytes 0
+  unfold DM.run
+  cases hm : decodeSlab id bytes 0 with
+  | ok a n => rw [hm] at h; simp only [Res.allocs]; omega
+  | error e n => rw [hm] at h; simp only [Res.allocs]; omega
+  | panic => simp [Res.allocs]
+
+/-- The same with an arbitrary start of the allocation counter (so for a sequence of decodes). -/
+theorem alloc_linear_from (bytes : Bytes) (id : SlabID) (n : Nat) :
+    match decodeSlab id bytes n with
+    | .ok _ n' => n' ≤ n + 2 * bytes.length
+    | .error _ n' => n' ≤ n + 2 * bytes.length
+    | .panic => True :=
+  decodeSlab_alloc_le id bytes n
 
 /-- The copies the CBOR library makes in `DecodeBytes` are bounded by the bytes consumed (so, summed
     over a register, by its length): a returned byte string is shorter than what was consumed. -/
